@@ -1,6 +1,5 @@
 ---------------------------- MODULE MC_AggStore ----------------------------
-(* Model-checking wrapper for AggStore: symmetry sets and an optional      *)
-(* partial-order reduction.                                                *)
+(* Model-checking wrapper for AggStore: symmetry sets.                     *)
 EXTENDS AggStore
 
 \* Threads and plain aggregate entities are interchangeable.
@@ -8,23 +7,4 @@ SymTE == Permutations(Threads)
             \cup Permutations(Entities \ (WalEntities \cup NewEntities))
 SymE == Permutations(Entities \ (WalEntities \cup NewEntities))
 
-(***************************************************************************)
-(* CsPriority (ACTION_CONSTRAINT, used only by the *_por configs, with     *)
-(* LockMode = "write" and threads numbered by naturals): while some thread *)
-(* is inside a critical section, the least such thread moves.  With an     *)
-(* exclusive scope lock, the steps inside a critical section on entity e   *)
-(* touch only cmds[e], snap[e], cache[e], order[e] and thread-local        *)
-(* variables, threads waiting for e are blocked, and every invariant is a  *)
-(* conjunction of per-entity / per-thread predicates, so running critical  *)
-(* sections on different entities one after the other loses no projection  *)
-(* of the reachable states onto an entity.  All orders of lock             *)
-(* acquisitions and all programs are still explored.  The configurations   *)
-(* without the reduction cross-check it at smaller bounds.                 *)
-(***************************************************************************)
-InCs(t) == pc[t] \notin {"idle", "root", "scope", "hist", "rootw",
-                         "relrootw", "dead"}
-Least(S) == CHOOSE x \in S : \A y \in S : x <= y
-CsPriority ==
-    LET cs == {t \in Threads : InCs(t)} IN
-    cs # {} => pc'[Least(cs)] # pc[Least(cs)]
 =============================================================================
